@@ -45,7 +45,9 @@ def discharge_all(obs, rlimit=40_000_000, timeout_ms=120_000, procs=16, use_cvc5
         jobs.append((o.name + f"#{i}", o.smt2(), (rlimit // 20 if quick else rlimit), (3000 if o.kind == "canary" else (8000 if quick else timeout_ms)),
                      use_cvc5 and not quick, thorough and o.kind != "canary"))
     if not jobs: return obs
-    with mp.Pool(min(procs, max(1, len(jobs)))) as p: res = p.map(work, jobs, chunksize=1)
+    # workers are started through a fork SERVER (a fresh process), never forked from this process: it has used z3 (native threads), and a plain fork of a threaded
+    # process deadlocked once in about two thousand runs of these checks
+    with mp.get_context("forkserver").Pool(min(procs, max(1, len(jobs)))) as p: res = p.map(work, jobs, chunksize=1)
     for o, (nm, status, backend, secs, second) in zip(obs, res):
         o.status, o.backend, o.secs, o.second = status, backend, secs, second
     return obs
